@@ -61,6 +61,26 @@ def _cases(draw):
             if g.p("_", 0.85):
                 c["choice_filter"] = " and ".join(f"{cn}=${{{g.pick(g.names)}}}" if g.names and g.p("_", 0.7) else f"{cn}='tx'" for cn in cols)
             form["nodes"].append({"k": "q", "c": c})
+    # lists whose rows are not contiguous on the sheet
+    if len(g.lists) >= 2 and g.p("_", 0.25):
+        form["choices_interleave"] = True
+    # a list name with a dot (the stem/extension split must only apply to select-from-file names)
+    if g.lists and g.p("_", 0.15):
+        lst = g.pick(g.lists)
+        old, new = lst["name"], lst["name"] + g.pick([".2024", ".v2", ".0"])
+        lst["name"] = new
+        for n, _ in model.walk(form["nodes"]):
+            t = n["c"].get("type", "").split(" ")
+            if len(t) >= 2 and t[1] == old:
+                t[1] = new
+                n["c"]["type"] = " ".join(t)
+    # an or_other select whose list already has its own 'other' choice somewhere but last
+    for n, _ in model.walk(form["nodes"]):
+        t = n["c"].get("type", "").split(" ")
+        if t[-1:] == ["or_other"] and g.p("_", 0.3):
+            lst = next((x for x in g.lists if x["name"] == t[1]), None)
+            if lst and not any(r.get("name") == "other" for r in lst["rows"]) and len(lst["rows"]) >= 2:
+                lst["rows"].insert(g.integer(0, len(lst["rows"]) - 1), {"name": "other", "label": "My other"})
     return {"form": form}
 
 
@@ -104,11 +124,10 @@ def expected_lists(form, root, dlang):
                     search_lists.add(lst)
     out = {}
     header = []
-    for lst in form.get("lists", []):
-        for r in lst["rows"]:
-            for k in r:
-                if k not in header:
-                    header.append(k)
+    for r in model.choices_rows(form):   # sheet order (lists may be interleaved): extra columns come out in header order
+        for k in r:
+            if k not in header:
+                header.append(k)
     for lst in form.get("lists", []):
         rows = [dict(r) for r in lst["rows"]]
         if lst["name"] in other_lists and not any(r.get("name") == "other" for r in rows):
